@@ -171,7 +171,14 @@ func sweepCall(c c13Sweep) (obs, bad string) {
 	t := time.Unix(1111111109, 0)
 	var err error
 	var accepted []string
-	codes := func(good string) string { return []string{good, "000000", good + "1", ""}[ix[0]] }
+	// submitted codes: the right one, a wrong one of exactly the length the PARAMETER names (whatever it is), one too long, none
+	codes := func(good string, digits int) string {
+		if digits < 0 || digits > 300 {
+			digits = 6
+		}
+		return []string{good, strings.Repeat("0", digits), good + "1", ""}[ix[0]]
+	}
+	var vok, isValidator bool
 	p := try(func() {
 		switch c.Op {
 		case "GenerateHOTP":
@@ -183,11 +190,13 @@ func sweepCall(c c13Sweep) (obs, bad string) {
 		case "ValidateHOTP":
 			good := ref.HOTP(key, 5, 6, 0)
 			accepted = hotpWindow(key, 5, 10, 6, 0)
-			_, err = otp.ValidateHOTP(c.Secret, codes(good), 5, &otp.Param{Skew: swSkew[ix[1]], Digits: otp.Digits(swDigits[ix[2]]), Algorithm: otp.Algorithm(swAlgos[ix[3]])})
+			isValidator = true
+			vok, err = otp.ValidateHOTP(c.Secret, codes(good, swDigits[ix[2]]), 5, &otp.Param{Skew: swSkew[ix[1]], Digits: otp.Digits(swDigits[ix[2]]), Algorithm: otp.Algorithm(swAlgos[ix[3]])})
 		case "ValidateTOTP":
 			good := ref.HOTP(key, ref.Step(1111111109, uint64(swPeriod[ix[4]])), 6, 0)
 			accepted = []string{good}
-			_, err = otp.ValidateTOTP(c.Secret, codes(good), t, &otp.Param{Skew: swSkew[ix[1]], Digits: otp.Digits(swDigits[ix[2]]), Algorithm: otp.Algorithm(swAlgos[ix[3]]), Period: swPeriod[ix[4]]})
+			isValidator = true
+			vok, err = otp.ValidateTOTP(c.Secret, codes(good, swDigits[ix[2]]), t, &otp.Param{Skew: swSkew[ix[1]], Digits: otp.Digits(swDigits[ix[2]]), Algorithm: otp.Algorithm(swAlgos[ix[3]]), Period: swPeriod[ix[4]]})
 		case "GenerateURL":
 			up := otp.URLParam{Issuer: swText[ix[1]], AccountName: swText[ix[2]], Secret: c.Secret, Digits: otp.Digits(swDigits[ix[3]]), Algorithm: otp.Algorithm(swAlgos[ix[4]]), Period: swPeriod[ix[5]]}
 			if ix[0] == 0 {
@@ -227,6 +236,12 @@ func sweepCall(c c13Sweep) (obs, bad string) {
 		return "panic:" + p, "" // panics are C10's concern
 	}
 	obs = errStr(err)
+	if isValidator {
+		obs = fmt.Sprint(vok, "|", obs)
+		if ps := pairShape(vok, err); ps != "" {
+			return obs, "ambiguous verdict " + ps
+		}
+	}
 	if err == nil {
 		return obs, ""
 	}
